@@ -150,7 +150,7 @@ func c05Run(c *fw.Ctx, idx int) {
 	r := c.R
 	g := c05Model(r)
 	c.SetInput(map[string]any{"geometry": g.String()})
-	t := g.BuildFlat()
+	t := spareStored(c, g, g.BuildFlat())
 	var text string
 	var err error
 	early := ""
